@@ -290,6 +290,10 @@ def run(ctx, res):
     append_only_from_sink(prog, res)
     shutdown_order(prog, res)
     state_from_flags(prog, res)
+    if ctx.tier == "thorough":
+        from ..apisim import run_rules
+        run_rules(prog, res, ("API-THREAD", "API-SHUTDOWN", "HAL-PROTOCOL", "HAL-CLOSE-ONCE", "HAL-CLOSED-USE",
+                              "MEM-UAF", "MEM-DOUBLE-FREE"), "API-SIM")
     res.require_min("CTL-SIM", 2)
     res.require_min("GUARD-DOM", 2)
     res.require_min("R-SHUTDOWN-ORDER", 6)
